@@ -711,7 +711,16 @@ func oidFromExtKeyUsage(eku ExtKeyUsage) (oid asn1.ObjectIdentifier, ok bool) {
 			return pair.oid, true
 		}
 	}
-	return
+	// The remaining ExtKeyUsage constants are known through the generated
+	// tables that extKeyUsageFromOID parses with.
+	for s, constant := range ekuConstants {
+		if constant == eku {
+			if oid, ok = ekuOIDs[s]; ok {
+				return oid, true
+			}
+		}
+	}
+	return nil, false
 }
 
 // A Certificate represents an X.509 certificate.
@@ -2400,7 +2409,7 @@ func buildExtensions(template *Certificate, _ []byte) (ret []pkix.Extension, err
 			if oid, ok := oidFromExtKeyUsage(u); ok {
 				oids = append(oids, oid)
 			} else {
-				panic("internal error")
+				return nil, errors.New("x509: unknown extended key usage")
 			}
 		}
 
